@@ -38,7 +38,9 @@ RULE = (
     "the content fits in the first read (and, for several reads, only when the answer does not depend on "
     "per-read sniffing: no CRLF at all, every read binary, or pure text with no CRLF across a read "
     "boundary); CRLF and LF variants of one text that fit one read get the same digest; file_md5(), "
-    "file_md5(callback), hash_file(info=None) and hash_file(info=fs.info) of one file agree. "
+    "file_md5(callback), hash_file(info=None) and hash_file(info=fs.info) of one file agree, and hash_file "
+    "with a caller-supplied info whose size is 0 / smaller / larger / missing still gives the digest of the "
+    "bytes in the file. "
     "Non-trivial = >=2 bytes and (>=2 non-empty reads, or legacy with a CRLF, or a file-based entry "
     "point, or a non-lower-case algorithm spelling); distinct = SHA-1 of the case JSON."
 )
@@ -272,7 +274,8 @@ def cases(draw):
     elif entry == "hash_file":
         mask = 0
         case["fs"] = draw(st.sampled_from(["local", "mem"]))
-        case["info"] = draw(st.booleans())
+        # caller-supplied info: none, honest fs.info(), or a stale/lying one (size 0 / smaller / larger / missing)
+        case["info"] = draw(st.sampled_from([False, True, True, "zero", "zero", "smaller", "larger", "missing"]))
     elif entry == "pair":
         mask = 0
         case["sub"] = draw(st.sampled_from(["stream", "fobj", "file"]))
@@ -538,6 +541,24 @@ def digest_via(sub, content, slack, d, viols, tag, peeks=()):
     return file_md5(p, LocalFileSystem(), name=LEGACY)
 
 
+def supplied_info(fs, path, form, real):
+    """The `info` a caller hands to hash_file: None, the honest fs.info(), or one whose size is stale/wrong
+    (a listing taken before the file was written, a pseudo-file reporting 0, an index Meta recorded earlier).
+    The reported size only sizes the progress bar; the digest is that of the bytes in the file."""
+    if not form:
+        return None
+    info = dict(fs.info(path))
+    if form == "zero":
+        info["size"] = 0
+    elif form == "smaller":
+        info["size"] = real // 2
+    elif form == "larger":
+        info["size"] = 2 * real + 4097
+    elif form == "missing":
+        info.pop("size", None)
+    return info
+
+
 def pre_digest(case, base, data, ctx):
     """Digest of `data` with the case's algorithm spelling through the case's entry point (one read)."""
     from dvc_data.hashfile.hash import file_md5, fobj_md5, hash_file
@@ -663,7 +684,9 @@ def run_case(case, ctx):
                 got = file_md5(path, fs, name=algo, **kw)
                 check_digest(got, content, base, chunks, viols, classes, "file_md5")
             else:
-                info = fs.info(path) if case["info"] else None
+                info = supplied_info(fs, path, case["info"], len(content))
+                if isinstance(case["info"], str):
+                    classes.append("hash_file-info-size=" + case["info"])
                 meta, hi = hash_file(path, fs, algo, info=info)
                 if hi.name != algo:
                     viols.append(Viol("hash_file-name", f"hash_file returned name {hi.name!r} for {algo!r}"))
